@@ -134,6 +134,26 @@ impl Classes {
             s: regex::Regex::new(r"^\s$").unwrap(),
         }
     }
+    /// First and last code point of every range of the regex crate's `\d`, `\s`, `\w` tables, and their outer
+    /// neighbours (taken from regex-syntax, independent of grex's own tables).
+    pub fn boundaries(which: &str) -> Vec<char> {
+        use regex_syntax::hir::{Class, HirKind};
+        let hir = regex_syntax::ParserBuilder::new().build().parse(which).unwrap();
+        let mut out = vec![];
+        if let HirKind::Class(Class::Unicode(cls)) = hir.kind() {
+            for r in cls.ranges() {
+                let (lo, hi) = (r.start() as u32, r.end() as u32);
+                for v in [lo.wrapping_sub(1), lo, hi, hi + 1] {
+                    if let Some(c) = char::from_u32(v) {
+                        out.push(c);
+                    }
+                }
+            }
+        }
+        out.sort();
+        out.dedup();
+        out
+    }
     pub fn is_digit(&self, c: char) -> bool {
         self.d.is_match(c.encode_utf8(&mut [0; 4]))
     }
